@@ -227,6 +227,7 @@ func runC01(ctx *Ctx) {
 	r := ctx.Rng.Fork()
 	// tie of the composed model (Props/C01_Project: process_no_fault, process_total) to the real pipeline
 	projectCorrSuite(ctx, r.Fork(), ctx.Budget(1000, 60000))
+	projectFSCorrespondence(ctx, includeGraphs(r.Fork()), "include graphs (empty, missing, directory, self-including, cyclic, diamond, deep, random)")
 	projects := corpusProjects()
 	depth := 2
 	enumTokenSeqs(scanTokens, depth, func(b []byte) { projects = append(projects, SingleFile(append([]byte("JSIGHT 0.3\n"), b...))) })
